@@ -180,11 +180,37 @@ class World:
                 self.coherent(s, {"C10"}, opk, what="non-target")
 
     # ------------------------------------------------------------------
+    class ExpensiveInput(BaseException):
+        pass
+
+    HANG_BOUND = 20000
+
+    def hang_not_judgeable(self):
+        """a call that outlasts the confirmation budget is a hang only if the
+        operands of the current operation leave a search little to do"""
+        op = self.cur_op or {}
+        ms = []
+        refs = [op.get(f) for f in ("s", "s1", "s2", "g1", "g2", "src", "g", "r", "p", "ts")] + list(op.get("srcs") or [])
+        for r in refs:
+            sl = self.slots.get(r) if isinstance(r, int) else None
+            if sl is None:
+                continue
+            if sl.kind == "graph" and sl.model is not None:
+                ms.append(sl.model)
+            for k in ("m1", "m2"):
+                if isinstance(sl.data.get(k), model.RefGraph):
+                    ms.append(sl.data[k])
+        return any(m.search_bound() > self.HANG_BOUND for m in ms)
+
     def run(self, ops, stop_on_violation=True):
         for i, op in enumerate(ops):
             self.step_no = i
             self.cur_op = op
-            self.step(op)
+            try:
+                self.step(op)
+            except self.ExpensiveInput:
+                self.stopped = True
+                break
             if stop_on_violation and self.violations:
                 self.stopped = True
                 break
